@@ -164,9 +164,10 @@ def artefacts(case: dict[str, Any]) -> dict[str, str]:
         from vf.gen import distgen
         desc = case.get("desc") or distgen.generate(case["seed"])
         pr = distrun.partition_all(desc, simmpi.RandomChooser(desc["seed"], "uniform"))
-        if pr.errors:
+        if pr.errors or len(pr.partitions) != desc["nranks"]:
             return {"parts": "ERR " + repr(sorted((r, type(e).__name__)
-                                                  for r, e in pr.errors.items()))}
+                                                  for r, e in pr.errors.items()))
+                    + f" returned={sorted(pr.partitions)}"}
         out["parts"] = json.dumps({str(r): c09.summary(p) for r, p in
                                    sorted(pr.partitions.items())}, sort_keys=True)
         tagmap = {}
